@@ -52,7 +52,66 @@ func (r Rng) fullRangeID() ID {
 
 func driveLaws(t *Tracer, r Rng, n int) {
 	for i := 0; i < n; i++ {
-		switch r.Intn(7) {
+		switch r.Intn(9) {
+		case 7: // translation law: moving the voxel by k cells = moving the offset by k cell heights (cells >= 1 m);
+			// moving the offset by m key cells moves the keys by m.  Ties large indices / offsets to the small
+			// ones whose band TLC evaluates exactly.
+			zi := r.In(0, 25)
+			E := r.In(0, 35)
+			zo := r.In(0, E)
+			nz := int64(1) << uint(zi)
+			f := r.edgeIn(-nz, nz-1)
+			f0 := r.In(-minI(nz, 8), minI(nz-1, 7))
+			k := f - f0
+			hs := int64(1) << uint(25-zi)
+			c := int64(1) << uint(E-zo)
+			O := r.offset()
+			m := r.In(-(1 << 20), 1<<20)
+			var lhs, rhs []string
+			o, _ := guard(func() (any, error) {
+				a1, b1, e1 := transform.ConvertZToMinMaxAltitudekey(f, zi, zo, E, O)
+				a2, b2, e2 := transform.ConvertZToMinMaxAltitudekey(f0, zi, zo, E, O+k*hs)
+				a3, b3, e3 := transform.ConvertZToMinMaxAltitudekey(f0, zi, zo, E, O+k*hs-m*c)
+				lhs = []string{fmt.Sprint(a1, b1, e1 != nil), fmt.Sprint(a1, b1, e1 != nil)}
+				rhs = []string{fmt.Sprint(a2, b2, e2 != nil), fmt.Sprint(a3+m, b3+m, e3 != nil)}
+				if e1 != nil || e3 != nil { // an error on either side: only the error flags of the first relation are compared
+					lhs, rhs = []string{fmt.Sprint(e1 != nil)}, []string{fmt.Sprint(e2 != nil)}
+				}
+				return nil, nil
+			})
+			bad := ""
+			if o != "ok" {
+				bad = "outcome " + o
+			}
+			emitLaw(t, "AltitudeKeyTranslate", map[string]any{"f": f, "f0": f0, "zi": zi, "zo": zo, "E": E, "O": O, "m": m}, lhs, rhs, bad)
+		case 8: // the same for key -> Z (key cells >= 1 m, output cells >= 1 m)
+			E := r.In(0, 35)
+			kz := r.In(0, minI(E, 34))
+			zo := r.In(0, 25)
+			nk := int64(1) << uint(kz)
+			k := r.edgeIn(0, nk-1)
+			k0 := r.In(0, minI(nk-1, 9))
+			hk := int64(1) << uint(E-kz)
+			c := int64(1) << uint(25-zo)
+			O := r.offset()
+			n2 := r.In(-(1 << 18), 1<<18)
+			var lhs, rhs []string
+			o, _ := guard(func() (any, error) {
+				a1, b1, e1 := transform.ConvertAltitudekeyToMinMaxZ(k, kz, zo, E, O)
+				a2, b2, e2 := transform.ConvertAltitudekeyToMinMaxZ(k0, kz, zo, E, O-(k-k0)*hk)
+				a3, b3, e3 := transform.ConvertAltitudekeyToMinMaxZ(k0, kz, zo, E, O-(k-k0)*hk+n2*c)
+				lhs = []string{fmt.Sprint(a1, b1, e1 != nil), fmt.Sprint(a1, b1, e1 != nil)}
+				rhs = []string{fmt.Sprint(a2, b2, e2 != nil), fmt.Sprint(a3+n2, b3+n2, e3 != nil)}
+				if e1 != nil || e3 != nil {
+					lhs, rhs = []string{fmt.Sprint(e1 != nil)}, []string{fmt.Sprint(e2 != nil)}
+				}
+				return nil, nil
+			})
+			bad := ""
+			if o != "ok" {
+				bad = "outcome " + o
+			}
+			emitLaw(t, "KeyToZTranslate", map[string]any{"k": k, "k0": k0, "kz": kz, "zo": zo, "E": E, "O": O, "n": n2}, lhs, rhs, bad)
 		case 0: // zoom-out in two steps = zoom-out in one step (any span)
 			id := r.fullRangeID()
 			lh, lv := r.In(0, id.H), r.In(0, id.V)
